@@ -475,6 +475,24 @@ pub fn run(out: &mut Out, tier: &str, seed: u64, prop: &str) {
     let mut w = Worker::spawn("req");
     let mut rc = ReqCases { lines: vec![], envs: vec![] };
     let vars = default_vars();
+    // ---- C07: leading whitespace never changes what the name is taken to be (archive check on the name itself) ----
+    if prop == "C07" {
+        for name in ["backports.zipfile", "backports.tarfile", "a.whlx", "x.tar.gzip", "pkg.tgz1", "n.zip-extra", "foo.tar.bz2x"] {
+            for k in 0..6usize {
+                for lead in [" ".repeat(k), "\t".repeat(k)] {
+                    for tail in ["", "[extra]", " ; python_version >= '3.8'", ">=1.0"] {
+                        let text = format!("{lead}{name}{tail}");
+                        let ans = req_case(out, &mut w, &mut rc, prop, &text, &vars);
+                        let want = format!("ok name={} ", hex(&norm_name(name)));
+                        if !ans.starts_with(&want) {
+                            out.oracle_fail("C07", &format!("a requirement whose name is not an archive file name is rejected / decomposed differently behind leading whitespace: {ans}"), serde_json::json!({"text": text}));
+                        }
+                        out.stat("c07.leading_ws_names");
+                    }
+                }
+            }
+        }
+    }
     // ---- derivations × layouts (C07, and correspondence for everyone) ------------------------------
     let n = if big { 3000 } else { 600 };
     for _ in 0..n {
